@@ -132,3 +132,39 @@ Theorem C17_upsert_functor_through_deferred_migration :
   exists e : entry, bget (cur t') b s = Some e /\ ekey e = k /\ eval e = vf))).
 Proof. exact uprase_gen_lgood. Qed.
 Print Assumptions C17_upsert_functor_through_deferred_migration.
+
+(* ---- run-tied form (RunTied.v) ---- *)
+From LC Require Import AcceptModel RunTied.
+Theorem C17_upsert_functor_tied :
+  forall (c : config) (hash : N -> N),
+  cfg_ok c ->
+  forall (t : table) (k : N) (v : Z) (g : Z -> bool -> option (Z * bool)),
+  nothrow c = true ->
+  lgood c hash t ->
+  forall (t' : table) (r : exn + bool * list rv * (N * N)),
+  uprase_gen c hash false t k v g = (t', r) ->
+  (forall v0 : Z,
+  lholds c t k v0 ->
+  exists b s : N,
+  r = inr (false, log_of g v0 false, (b, s)) /\
+  lgood c hash t' /\
+  lim_same t t' /\
+  bhp (cur t') = bhp (cur t) /\
+  lupd c t t' k (final_of g v0 false) /\
+  (forall vf : Z,
+  final_of g v0 false = Some vf ->
+  exists e : entry, bget (cur t') b s = Some e /\ ekey e = k /\ eval e = vf)) /\
+  ((forall v0 : Z, ~ lholds c t k v0) ->
+  tied_esc t' \/
+  (exists e : exn, r = inl e /\ exn_ok c true t t' e /\ levolves c hash t t') \/
+  (exists b s : N,
+  r = inr (true, log_of g v true, (b, s)) /\
+  lgood c hash t' /\
+  lim_same t t' /\
+  bhp (cur t) <= bhp (cur t') /\
+  lupd c t t' k (final_of g v true) /\
+  (forall vf : Z,
+  final_of g v true = Some vf ->
+  exists e : entry, bget (cur t') b s = Some e /\ ekey e = k /\ eval e = vf))).
+Proof. exact uprase_gen_lgood_tied. Qed.
+Print Assumptions C17_upsert_functor_tied.
